@@ -266,3 +266,24 @@ pub mod internal {
     pub use crate::value::{Cloner, ClosureData, Value, ValuePrinter};
     pub use crate::vm::Global;
 }
+
+#[cfg(gluon_verif)]
+impl<'a> Variants<'a> {
+    /// `(address, heap id, freed)` of the object this value points to, `None` for immediates
+    pub fn verif_ptr_info(&self) -> Option<(usize, usize, bool)> {
+        fn info<T: ?Sized>(p: &crate::gc::GcPtr<T>) -> Option<(usize, usize, bool)> {
+            Some((p.verif_addr(), p.verif_heap_id(), p.verif_freed()))
+        }
+        match &self.0 {
+            ValueRepr::Byte(_) | ValueRepr::Int(_) | ValueRepr::Float(_) | ValueRepr::Tag(_) => None,
+            ValueRepr::String(s) => info(s),
+            ValueRepr::Data(p) => info(p),
+            ValueRepr::Array(p) => info(p),
+            ValueRepr::Function(p) => info(p),
+            ValueRepr::Closure(p) => info(p),
+            ValueRepr::PartialApplication(p) => info(p),
+            ValueRepr::Userdata(p) => info(p),
+            ValueRepr::Thread(p) => info(p),
+        }
+    }
+}
